@@ -205,7 +205,8 @@ func SLen(s Term) Term { return app(SInt, "slen", s) }
 func SArr(s Term) Term { return app(ArraySort(SInt, sliceElemSort(s.Sort)), "sarr", s) }
 func MkSlice(arr, n Term) Term {
 	_, v := arrayParts(arr.Sort)
-	return app(SliceSort(v), "mkslice", arr, n)
+	// qualified: z3 cannot infer the instance of the parametric constructor under a polymorphic selector
+	return app(SliceSort(v), "(as mkslice "+SliceSort(v)+")", arr, n)
 }
 
 func NilIface() Term { return Term{"(mkiface 0 0)", SIface} }
